@@ -13,6 +13,7 @@ CONSTANTS
   FreshModelPerCall = TRUE
   DefaultsUntouched = TRUE
   OrderedIteration = TRUE
+  SummaryStateless = TRUE
 INVARIANT Functional
 INVARIANT SeedDerived
 CONSTRAINT ExportDone
